@@ -1396,11 +1396,79 @@ def receipt_damage_family(ctx, st):
     st.rules.append("receipt damage: every truncation of a small V1 and V2 store encoding, sampled truncations of random ones, single bit flips")
 
 
-EXTRA_FAMILIES = [corpus_family, receipts_family, merkle_family, hardfork_family, txsign_family, chainid_family, txroot_family, genesis_family, genesis_store_family, store_family, forkboundary_family, bloom_family, receipt_damage_family]
-EXTRA_TARGETS = ["Common/Sha256.vo", "Common/Lit.vo", "Codec/Receipt.vo", "Codec/Merkle.vo", "Codec/Hardfork.vo", "Codec/TxRoot.vo", "Codec/GenesisStore.vo", "Codec/ChainStore.vo", "Codec/Bloom.vo"]  # evaluated models that no theorem depends on
+# ------------------------------------------------------------------ restart protocol of the hardfork configuration (real checkHardfork)
+def restart_family(ctx, st):
+    rng = ctx.rng
+    quick = ctx.tier == "quick"
+    binpath = st.chain_bin
+    A, B = [0, 0, 0, 40], [0, 0, 0, 20]
+    seqs = [
+        [("start", A), ("grow", 10), ("start", B), ("grow", 20), ("start", B), ("start", A)],          # reschedule a future fork, then try to go back
+        [("start", A), ("grow", 10), ("start", B), ("grow", 20), ("start", A), ("grow", 5), ("start", B)],
+        [("start", [5, 10, 15, 20]), ("grow", 12), ("start", [5, 10, 14, 20]), ("start", [5, 10, 13, 20]), ("start", [5, 10, 12, 20]),
+         ("start", [5, 10, 15, 21]), ("grow", 9), ("start", [5, 10, 15, 20]), ("start", [5, 10, 15, 21])],
+        [("start", [3, 3, 3, 3]), ("grow", 2), ("start", [4, 4, 4, 4]), ("grow", 3), ("start", [3, 3, 3, 3]), ("start", [4, 4, 4, 4])],
+        [("start", A), ("grow", 10), ("start", B), ("grow", 20), ("start", A), ("start", A), ("grow", 3), ("start", B)],   # a refused configuration retried
+        [("start", [9, 7, 5, 3]), ("grow", 4), ("start", [9, 7, 5, 3]), ("start", [3, 5, 7, 9])],       # unvalidated first start
+    ]
+    rs = []
+    for _ in range(4 if quick else 80):
+        cfg = sorted(rng.randrange(0, 30) for _ in range(4))
+        seq = [("start", list(cfg))]
+        best = 0
+        for _ in range(rng.randrange(2, 5)):
+            k = rng.randrange(0, 9)
+            seq.append(("grow", k))
+            best += k
+            for _ in range(rng.randrange(1, 3)):
+                c2 = list(cfg)
+                i = rng.randrange(4)
+                c2[i] = max(0, rng.choice([best - 1, best, best + 1, cfg[i] - 1, cfg[i] + 1, rng.randrange(0, 40)]))
+                if rng.random() < 0.85:
+                    c2 = sorted(c2)
+                seq.append(("start", c2))
+        rs.append(seq)
+    seqs += rs
+    cases = [{"kind": "RSQ", "Events": [({"op": "start", "cfg": x} if op == "start" else {"op": "grow", "k": x}) for op, x in seq]} for seq in seqs]
+    obs = run_engine(ctx, binpath, "TestVerifStoreEngine", cases, "restart")
+    items, src = [], []
+    for seq, c, o in zip(seqs, cases, obs):
+        rep = {"events": seq, "steps": [{k: v for k, v in s_.items() if k not in ("made", "now")} for s_ in o.get("steps", [])]}
+        if "panic" in o:
+            st.fail("C19:restart-engine-panic", "restart sequence panicked: " + o["panic"], rep)
+            continue
+        last_accepted = None
+        for (op, x), s_ in zip(seq, o["steps"]):
+            if "made" in s_ and s_["made"] != s_["now"]:
+                h = next(i for i, (a, b) in enumerate(zip(s_["made"], s_["now"])) if a != b) + 1
+                st.fail("C19:hardfork-version-not-stable-across-restarts",
+                        "after the events %s the running node reports version %d for height %d, which was produced as version %d "
+                        "(stored heights %s)" % (seq[:o["steps"].index(s_) + 1], s_["now"][h - 1], h, s_["made"][h - 1], s_["stored"]),
+                        dict(rep, height=h, made=s_["made"][h - 1], now=s_["now"][h - 1]))
+                break
+            if op == "start":
+                if s_["accepted"]:
+                    last_accepted = x
+                elif last_accepted == x and all(x[i] <= x[i + 1] for i in range(3)):
+                    st.fail("C19:restart-refuses-running-configuration", "a restart with the configuration of the last accepted start is refused: %s"
+                            % s_.get("err"), rep)
+        st.nontrivial.add(("RSQ", tuple((op, bool(s_.get("accepted"))) for (op, x), s_ in zip(seq, o["steps"]))[:8]))
+        evs = "[" + "; ".join(("Start [%s]" % ";".join(map(str, x))) if op == "start" else ("Grow %d" % x) for op, x in seq) + "]"
+        ob = "[" + "; ".join("(%s, [%s], %d)" % (cbool(bool(s_["accepted"])), ";".join(map(str, s_["stored"])), s_["best"]) for s_ in o["steps"]) + "]"
+        items.append("(%s, %s)" % (evs, ob))
+        src.append(rep)
+    st.add_family("restart_sequences", "list event * list (bool * list N * N)", "restart_case_ok", items, src)
+    st.rules.append("restart sequences: 2..9 starts of the real ChainService.checkHardfork on one persistent chain DB, interleaved with real block "
+                    "production, configurations changed below / at / above the best block, rescheduled future forks and attempts to go back; "
+                    "every produced height's header version vs the version the running node reports; accept/refuse, stored heights and best "
+                    "block after every step vs the model's step function")
+
+
+EXTRA_FAMILIES = [corpus_family, receipts_family, merkle_family, hardfork_family, txsign_family, chainid_family, txroot_family, genesis_family, genesis_store_family, store_family, restart_family, forkboundary_family, bloom_family, receipt_damage_family]
+EXTRA_TARGETS = ["Common/Sha256.vo", "Common/Lit.vo", "Codec/Receipt.vo", "Codec/Merkle.vo", "Codec/Hardfork.vo", "Codec/TxRoot.vo", "Codec/GenesisStore.vo", "Codec/ChainStore.vo", "Codec/Bloom.vo", "Codec/Restart.vo"]  # evaluated models that no theorem depends on
 
 IMPORTS = """From Coq Require Import NArith ZArith List Bool String Uint63.
-From Verif Require Import Common.Bytes Common.Lit Common.Sha256 Codec.Fields Codec.Digest Codec.ChainId Codec.Merkle Codec.TxRoot Codec.Receipt Codec.Hardfork Codec.GenesisStore Codec.ChainStore Codec.ReceiptProofs Codec.Bloom %s.
+From Verif Require Import Common.Bytes Common.Lit Common.Sha256 Codec.Fields Codec.Digest Codec.ChainId Codec.Merkle Codec.TxRoot Codec.Receipt Codec.Hardfork Codec.GenesisStore Codec.ChainStore Codec.ReceiptProofs Codec.Bloom Codec.Restart %s.
 Import ListNotations.
 Open Scope N_scope.
 """
